@@ -72,6 +72,7 @@ func runC37(p *Prog, r *Report) {
 		},
 		heldOnEntry: map[string][]string{
 			"(*Server).closeListenersLocked":                           {"Server.mu"},
+			"(*HostClient).startConnsCleanerLocked":                    {"HostClient.connsLock"},
 			"(*PipelineClient).getConnClientUnlocked":                  {"PipelineClient.connClientsLock"},
 			"(*PipelineClient).newConnClient":                          {"PipelineClient.connClientsLock"},
 			"(*inMemoryCacheManager).addFileToReleaseNolock":           {"inMemoryCacheManager.cacheLock"},
